@@ -334,6 +334,13 @@ def run(ctx):
                     break
             chk.ob(key, ok, "the printed program is accepted by the parser and has the same lines", b.loc(), det,
                    "Display for Asm evaluated abstractly, matched against grammar rule file")
+    # the step from `line` pairs to the program's lines (the clauses above assume it is one-to-one)
+    from . import C03
+    chk.prefix = "parse/"
+    try:
+        C03.run(ctx, only_entry=True)
+    finally:
+        chk.prefix = ""
     chk.assume("labels and comments of a parsed program only contain text their grammar rules accept; "
                "comments are stored trimmed (C03)")
     chk.sample({"shape": "Mov (LBL), ((R2+))", "printed": "MOV (l_dstlbl), ((R2+))"})
